@@ -89,3 +89,30 @@ Definition I8 := {| signed := true; bytes_ := 1 |}.   Definition U8 := {| signed
 Definition I16 := {| signed := true; bytes_ := 2 |}.  Definition U16 := {| signed := false; bytes_ := 2 |}.
 Definition I32 := {| signed := true; bytes_ := 4 |}.  Definition U32 := {| signed := false; bytes_ := 4 |}.
 Definition I64 := {| signed := true; bytes_ := 8 |}.  Definition U64 := {| signed := false; bytes_ := 8 |}.
+
+(* ---- Array/Utilities.hpp: copyArray from a document to C arrays ------------------------------------------------ *)
+(* The destination is modelled as the list of its current elements; the result is the destination afterwards and the
+   count the function returns. *)
+Definition elems_of (v : jv) : list jv := match v with JArr l => l | _ => [] end.   (* as<JsonArrayConst>() *)
+
+(* copyArray(JsonArrayConst src, T* dst, size_t len) : min(size, len) elements converted by as<T>(), the rest untouched *)
+Definition copy_array_1d (c : cfg) (t : ity) (src : jv) (dst : list Z) : list Z * nat :=
+  let n := Nat.min (length (elems_of src)) (length dst) in
+  (map (as_int c t) (firstn n (elems_of src)) ++ skipn n dst, n).
+
+(* copyArray(JsonArrayConst src, T (&dst)[N1][N2]) : row i receives the 1-d copy of element i (an element that is not an
+   array copies nothing into its row) *)
+Fixpoint copy_rows (c : cfg) (t : ity) (src : list jv) (dst : list (list Z)) : list (list Z) :=
+  match src, dst with
+  | e :: src', row :: dst' => fst (copy_array_1d c t e row) :: copy_rows c t src' dst'
+  | _, _ => dst
+  end.
+Definition copy_array_2d (c : cfg) (t : ity) (src : jv) (dst : list (list Z)) : list (list Z) * nat :=
+  (copy_rows c t (elems_of src) dst, Nat.min (length (elems_of src)) (length dst)).
+
+(* copyArray(JsonVariantConst src, char (&dst)[N]) with N = length dst >= 1 : at most N-1 bytes of the string, then NUL;
+   a source that is not a string is the null JsonString (size 0) *)
+Definition copy_string (src : jv) (dst : bytes) : bytes :=
+  let s := match src with JStr s => s | _ => [] end in
+  let len := Nat.min (length dst - 1) (length s) in
+  firstn len s ++ [0%N] ++ skipn (S len) dst.
